@@ -19,7 +19,7 @@ EXPLANATION = 'restored and original differ at most in the unsaved _source; iden
 def continue_ops(stage):
     """Pipeline stages that remain after `stage` (plus setting materials again)."""
     rest = {'constructed': [('S', [0, 1, 2, 3, 4, 5], 'm0'), ('A', 'a1'), ('B',), ('I', 's0'), ('X', 'p0', 1)],
-            'materials': [('S', [2], 'm1'), ('B',), ('I', 's0'), ('X', 'p0', 1)],
+            'materials': [('S', [2], 'm3'), ('B',), ('I', 's0'), ('X', 'p0', 1)],
             'baked': [('I', 's0'), ('X', 'p0', 1)],
             'sourced': [('X', 'p0', 1)],
             'exchanged': [('S', [1], 'm2'), ('B',), ('I', 's1'), ('X', 'p1', 1)]}
